@@ -80,6 +80,55 @@ func (r *revDecompressor) Reset(src io.Reader) error {
 	return nil
 }
 
+// crcCompressor / crcDecompressor: see wire.CRCCompress. The decompressor reports a bad
+// checksum only from Close.
+type crcCompressor struct {
+	w   io.Writer
+	buf bytes.Buffer
+}
+
+func (r *crcCompressor) Write(p []byte) (int, error) { return r.buf.Write(p) }
+func (r *crcCompressor) Close() error {
+	_, err := r.w.Write(wire.CRCCompress(r.buf.Bytes()))
+	r.buf.Reset()
+	return err
+}
+func (r *crcCompressor) Reset(w io.Writer) { r.w = w; r.buf.Reset() }
+
+type crcDecompressor struct {
+	out      *bytes.Reader
+	err      error
+	closeErr error
+}
+
+func (r *crcDecompressor) Read(p []byte) (int, error) {
+	if r.err != nil {
+		return 0, r.err
+	}
+	if r.out == nil {
+		return 0, io.EOF
+	}
+	return r.out.Read(p)
+}
+func (r *crcDecompressor) Close() error { return r.closeErr }
+func (r *crcDecompressor) Reset(src io.Reader) error {
+	r.out, r.err, r.closeErr = nil, nil, nil
+	raw, err := io.ReadAll(src)
+	if err != nil {
+		return err
+	}
+	if len(raw) < 6 || raw[0] != 'C' || raw[1] != 'K' {
+		r.err = errors.New("crc: bad magic")
+		return nil
+	}
+	body := raw[2 : len(raw)-4]
+	if _, err := wire.CRCDecompress(raw); err != nil {
+		r.closeErr = err // the data is handed out; the verdict comes with Close
+	}
+	r.out = bytes.NewReader(body)
+	return nil
+}
+
 // ---------------------------------------------------------------------------------
 // Configuration
 
@@ -122,6 +171,9 @@ func FormToProtocol(f wire.Form) vanguard.Protocol {
 func ExtraOptions() []vanguard.TranscoderOption {
 	return []vanguard.TranscoderOption{
 		vanguard.WithCodec(func(res vanguard.TypeResolver) vanguard.Codec { return AltCodec{Res: res} }),
+		vanguard.WithCompression("crc",
+			func() connect.Compressor { return &crcCompressor{} },
+			func() connect.Decompressor { return &crcDecompressor{} }),
 		vanguard.WithCompression("rev",
 			func() connect.Compressor { return &revCompressor{} },
 			func() connect.Decompressor { return &revDecompressor{} }),
